@@ -11,6 +11,7 @@ import (
 	"sync"
 
 	"verifharness/drivers/alpn"
+	"verifharness/drivers/faults"
 	"verifharness/drivers/hsd"
 	"verifharness/drivers/mux"
 	"verifharness/drivers/reg"
@@ -34,6 +35,9 @@ var families = map[string]famFn{
 	},
 	"alpn": func(in, out string, seed int64, par int, tier string) error {
 		return runFamily(in, out, seed, par, alpn.Run, func(b alpn.Behaviour) string { return b.Id })
+	},
+	"faults": func(in, out string, seed int64, par int, tier string) error {
+		return runFamily(in, out, seed, par, faults.Run, func(b faults.Behaviour) string { return b.Id })
 	},
 	"hsd": func(in, out string, seed int64, par int, tier string) error {
 		return runFamily(in, out, seed, par, hsd.Run, func(b hsd.Behaviour) string { return b.Id })
